@@ -66,7 +66,15 @@ def stepTags (t : TState) (i : Instr) (ptrSlots : List Nat) : TState :=
   | .endian _ _ dst => setR t dst (if rtag dst = .clean then .clean else .dirty)
   | .lddw dst _ => setR t dst .clean
   | .ldabs _ _ => setR t 0 .clean
-  | .ldind _ src _ => let t := if rtag src ≠ .clean then bad t else t; setR t 0 .clean
+  | .ldind w src imm =>
+    -- with an empty packet the base is null: an index register holding a stack address addresses that stack byte
+    if t.s.mem.mem.bytes.size = 0 ∧ rtag src = .stk then
+      let a := (((t.s.reg[src]?).getD 0) + imm.setWidth 64).toNat
+      match stackRange t a w with
+      | some o => setR { t with f16 := t.f16 || inFn } 0 (combine ((List.range w).map fun k => t.st.getD (o + k) .dirty) w)
+      | none => setR (bad t) 0 .clean
+    else
+      let t := if rtag src ≠ .clean then bad t else t; setR t 0 .clean
   | .ldx w dst src off =>
     let a := ea src off
     let t := if rtag src = .dirty then bad t else t
